@@ -51,6 +51,27 @@ func expect(g, h geom.Geom, tol float64, want bool, deriv string) {
 	}
 	if ab != want {
 		rep.Violation(fmt.Sprintf("%s|%s|got-%v-want-%v", kind, deriv, ab, want), map[string]interface{}{"g": fmt.Sprintf("%#v", g), "h": fmt.Sprintf("%#v", h), "tol": tol})
+		return
+	}
+	// memory layout and history: both operands with their vertex slices cut
+	// from one flat buffer each, compared twice in both directions: the same
+	// answers, and neither buffer written
+	fg, wg := geomgen.FlatBacked(g)
+	fh, wh := geomgen.FlatBacked(h)
+	for round := 0; round < 2; round++ {
+		var x, y bool
+		if p := try(func() { x, y = fg.Similar(fh, tol), fh.Similar(fg, tol) }); p != "" {
+			rep.Violation(fmt.Sprintf("%s|%s|flat-buffer-operands|panic", kind, deriv), map[string]interface{}{"g": fmt.Sprintf("%#v", g), "h": fmt.Sprintf("%#v", h), "tol": tol, "panic": p})
+			return
+		}
+		if w := wg() + wh(); w != "" {
+			rep.Violation(fmt.Sprintf("%s|%s|flat-buffer-operands|caller-buffer-written", kind, deriv), map[string]interface{}{"g": fmt.Sprintf("%#v", g), "h": fmt.Sprintf("%#v", h), "tol": tol, "observed": w})
+			return
+		}
+		if x != want || y != want {
+			rep.Violation(fmt.Sprintf("%s|%s|flat-buffer-operands|round-%d|got-%v,%v-want-%v", kind, deriv, round+1, x, y, want), map[string]interface{}{"g": fmt.Sprintf("%#v", g), "h": fmt.Sprintf("%#v", h), "tol": tol})
+			return
+		}
 	}
 }
 
@@ -471,7 +492,7 @@ func main() {
 		return
 	}
 	rep = report.New("C15", tier, "model_checking")
-	rep.Rule = "E1: 20 base geometries of all eight types (axis-aligned and general-position rings, closed and unclosed, a ring visiting one vertex twice, nested collections, empty geometries) whose members are >= 90 apart, tol in {1e-3, 0.1}; for each every derived h: identity; all coordinates perturbed by +-tol/2 in 6 sign patterns (expected true); every permutation of members combined with perturbation (true); every start rotation of closed rings (true); every single coordinate displaced by 2*tol, incl. the closing vertex of a closed ring on its own (false); every member deleted / duplicated at every position (false); every line / line member reversed (false); change of type with identical vertices (false); and, for containers, every such derivation applied to every member with the other members unchanged (nested to depth 2: rings permuted inside a multi-polygon member, members of a nested collection, ...). Every pair is evaluated in both directions (symmetry). Non-trivial = every derivation other than identity."
+	rep.Rule = "E1: 20 base geometries of all eight types (axis-aligned and general-position rings, closed and unclosed, a ring visiting one vertex twice, nested collections, empty geometries) whose members are >= 90 apart, tol in {1e-3, 0.1}; for each every derived h: identity; all coordinates perturbed by +-tol/2 in 6 sign patterns (expected true); every permutation of members combined with perturbation (true); every start rotation of closed rings (true); every single coordinate displaced by 2*tol, incl. the closing vertex of a closed ring on its own (false); every member deleted / duplicated at every position (false); every line / line member reversed (false); change of type with identical vertices (false); and, for containers, every such derivation applied to every member with the other members unchanged (nested to depth 2: rings permuted inside a multi-polygon member, members of a nested collection, ...). Every pair is evaluated in both directions (symmetry), and again twice with both operands cut from flat vertex buffers (same answers, buffers not written). Non-trivial = every derivation other than identity."
 	cat := catalogue()
 	if tier == "thorough" {
 		cat = append(cat, generated()...)
